@@ -852,6 +852,7 @@ theorem fixedBody_key (t : FTy) (i : Int) (h : t.admits (some (.int i)) = true) 
     · simp only [scalarKey]; omega
   | bin => simp [FTy.admits] at h
   | fsb n => simp [FTy.admits] at h
+  | prod ws => simp [FTy.admits] at h
 
 theorem fixedBody_length (t : FTy) (i : Int) (h : t.admits (some (.int i)) = true) :
     (encodeFixedBody t i).length = fixedWidth t := by
@@ -904,8 +905,40 @@ theorem fixedSlot_cmp (o : SortOptions) (w : Nat) (a b : Option (List UInt8))
       · simp only [invIf, if_true]
         rw [compareBytes_inv_eqlen (by rw [hx, hy])]
 
+theorem admitsComps_cons {w : Nat} {ws : List Nat} {i : Int} {is : List Int} :
+    admitsComps (w :: ws) (i :: is) = true ↔
+      (FTy.int true w).admits (some (.int i)) = true ∧ admitsComps ws is = true := by
+  simp [admitsComps, FTy.admits]
+
+theorem encodeComps_length : ∀ (ws : List Nat) (is : List Int), admitsComps ws is = true →
+    (encodeComps ws is).length = ws.sum
+  | [], [], _ => rfl
+  | [], _ :: _, h => by simp [admitsComps] at h
+  | _ :: _, [], h => by simp [admitsComps] at h
+  | w :: ws, i :: is, h => by
+    obtain ⟨h1, h2⟩ := admitsComps_cons.mp h
+    simp only [encodeComps, List.length_append, List.sum_cons]
+    rw [fixedBody_length _ i h1, encodeComps_length ws is h2]; rfl
+
+/-- **product of signed encodings**: the concatenation of the components' own signed
+encodings is ordered like the component tuples, lexicographically -/
+theorem encodeComps_cmp : ∀ (ws : List Nat) (a b : List Int), admitsComps ws a = true → admitsComps ws b = true →
+    compareBytes (encodeComps ws a) (encodeComps ws b) = lexCompare compareInt a b
+  | [], [], [], _, _ => rfl
+  | [], _ :: _, _, h, _ => by simp [admitsComps] at h
+  | [], [], _ :: _, _, h => by simp [admitsComps] at h
+  | _ :: _, [], _, h, _ => by simp [admitsComps] at h
+  | _ :: _, _ :: _, [], _, h => by simp [admitsComps] at h
+  | w :: ws, i :: is, j :: js, ha, hb => by
+    obtain ⟨h1, h2⟩ := admitsComps_cons.mp ha
+    obtain ⟨h3, h4⟩ := admitsComps_cons.mp hb
+    simp only [encodeComps, lexCompare]
+    rw [compareBytes_append_eqlen _ _ (by rw [fixedBody_length _ i h1, fixedBody_length _ j h3]),
+      fixedBody_cmp _ i j h1 h3, encodeComps_cmp ws is js h2 h4]
+    rfl
+
 theorem encodeField_cmp_fixed (o : SortOptions) (t : FTy) (a b : FVal) (ha : t.admits a = true) (hb : t.admits b = true)
-    (h1 : t ≠ .bin) (h2 : ∀ n, t ≠ .fsb n) :
+    (h1 : t ≠ .bin) (h2 : ∀ n, t ≠ .fsb n) (h3 : ∀ ws, t ≠ .prod ws) :
     cmpStrict (encodeField o t a) (encodeField o t b) = some (compareField o t a b) := by
   have key : ∀ v : FVal, t.admits v = true → ∃ v' : Option Int,
       encodeField o t v = encodeFixedSlot o (fixedWidth t) (v'.map (encodeFixedBody t)) ∧ v = v'.map Scalar.int ∧
@@ -914,13 +947,15 @@ theorem encodeField_cmp_fixed (o : SortOptions) (t : FTy) (a b : FVal) (ha : t.a
     match v, hv with
     | none, _ =>
       refine ⟨none, ?_, rfl, by simp⟩
-      cases t <;> first | rfl | exact absurd rfl h1 | exact absurd rfl (h2 _)
+      cases t <;> first | rfl | exact absurd rfl h1 | exact absurd rfl (h2 _) | exact absurd rfl (h3 _)
     | some (.int i), hv =>
       refine ⟨some i, ?_, rfl, ?_⟩
-      · cases t <;> first | rfl | exact absurd rfl h1 | exact absurd rfl (h2 _)
+      · cases t <;> first | rfl | exact absurd rfl h1 | exact absurd rfl (h2 _) | exact absurd rfl (h3 _)
       · intro j hj; cases hj; exact hv
     | some (.bytes x), hv =>
-      cases t <;> first | (simp [FTy.admits] at hv; done) | exact absurd rfl h1 | exact absurd rfl (h2 _)
+      cases t <;> first | (simp [FTy.admits] at hv; done) | exact absurd rfl h1 | exact absurd rfl (h2 _) | exact absurd rfl (h3 _)
+    | some (.ints x), hv =>
+      cases t <;> first | (simp [FTy.admits] at hv; done) | exact absurd rfl h1 | exact absurd rfl (h2 _) | exact absurd rfl (h3 _)
   obtain ⟨a', ea, rfl, la⟩ := key a ha
   obtain ⟨b', eb, rfl, lb⟩ := key b hb
   rw [ea, eb, fixedSlot_cmp o (fixedWidth t)]
@@ -954,6 +989,7 @@ theorem encodeField_cmp (o : SortOptions) (t : FTy) (a b : FVal) (ha : t.admits 
       | none, _ => exact ⟨none, rfl, rfl⟩
       | some (.bytes x), _ => exact ⟨some x, rfl, rfl⟩
       | some (.int _), hv => simp [FTy.admits] at hv
+      | some (.ints _), hv => simp [FTy.admits] at hv
     obtain ⟨a', ea, rfl⟩ := key a ha
     obtain ⟨b', eb, rfl⟩ := key b hb
     rw [ea, eb, encodeVar_cmp]
@@ -970,13 +1006,44 @@ theorem encodeField_cmp (o : SortOptions) (t : FTy) (a b : FVal) (ha : t.admits 
         · simp [encodeField, hv]
         · intro y hy; cases hy; exact hv
       | some (.int _), hv => simp [FTy.admits] at hv
+      | some (.ints _), hv => simp [FTy.admits] at hv
     obtain ⟨a', ea, rfl, la⟩ := key a ha
     obtain ⟨b', eb, rfl, lb⟩ := key b hb
     rw [ea, eb, fixedSlot_cmp o n a' b' la lb]
     cases a' <;> cases b' <;> rfl
-  | int s w => exact encodeField_cmp_fixed o (.int s w) a b ha hb (by simp) (by simp)
-  | float w => exact encodeField_cmp_fixed o (.float w) a b ha hb (by simp) (by simp)
-  | bool => exact encodeField_cmp_fixed o .bool a b ha hb (by simp) (by simp)
+  | prod ws =>
+    have key : ∀ v : FVal, (FTy.prod ws).admits v = true → ∃ v' : Option (List Int),
+        encodeField o (.prod ws) v = encodeFixedSlot o ws.sum (v'.map (encodeComps ws)) ∧ v = v'.map Scalar.ints ∧
+        ∀ x, v' = some x → admitsComps ws x = true := by
+      intro v hv
+      match v, hv with
+      | none, _ => exact ⟨none, rfl, rfl, by simp⟩
+      | some (.ints x), hv => exact ⟨some x, rfl, rfl, by intro y hy; cases hy; exact hv⟩
+      | some (.int _), hv => simp [FTy.admits] at hv
+      | some (.bytes _), hv => simp [FTy.admits] at hv
+    obtain ⟨a', ea, rfl, la⟩ := key a ha
+    obtain ⟨b', eb, rfl, lb⟩ := key b hb
+    rw [ea, eb, fixedSlot_cmp o ws.sum]
+    · cases a' with
+      | none => cases b' <;> rfl
+      | some x =>
+        cases b' with
+        | none => rfl
+        | some y =>
+          simp only [Option.map_some, compareField, compareVal]
+          rw [encodeComps_cmp ws x y (la x rfl) (lb y rfl)]
+          rfl
+    · intro x hx
+      cases a' with
+      | none => simp at hx
+      | some i => simp at hx; subst hx; exact encodeComps_length ws i (la i rfl)
+    · intro x hx
+      cases b' with
+      | none => simp at hx
+      | some i => simp at hx; subst hx; exact encodeComps_length ws i (lb i rfl)
+  | int s w => exact encodeField_cmp_fixed o (.int s w) a b ha hb (by simp) (by simp) (by simp)
+  | float w => exact encodeField_cmp_fixed o (.float w) a b ha hb (by simp) (by simp) (by simp)
+  | bool => exact encodeField_cmp_fixed o .bool a b ha hb (by simp) (by simp) (by simp)
 
 
 theorem encodeRow_cmp (fs : List (FTy × SortOptions)) : ∀ (r1 r2 : List FVal),
@@ -1222,6 +1289,7 @@ theorem decodeFixedBody_encode (t : FTy) (i : Int) (h : t.admits (some (.int i))
     rcases h with rfl | rfl <;> decide
   | bin => simp [FTy.admits] at h
   | fsb n => simp [FTy.admits] at h
+  | prod ws => simp [FTy.admits] at h
 
 theorem invIf_invIf (d : Bool) (x : List UInt8) : invIf d (invIf d x) = x := by
   cases d <;> simp [invIf, inv_inv]
@@ -1250,33 +1318,46 @@ theorem decodeFixedSlot (o : SortOptions) (w : Nat) (body : Option (List UInt8))
       rw [List.take_left' (by rw [invIf_length, hx]), invIf_invIf]
 
 
+theorem decodeComps_encode : ∀ (ws : List Nat) (is : List Int), admitsComps ws is = true →
+    decodeComps ws (encodeComps ws is) = is
+  | [], [], _ => rfl
+  | [], _ :: _, h => by simp [admitsComps] at h
+  | _ :: _, [], h => by simp [admitsComps] at h
+  | w :: ws, i :: is, h => by
+    obtain ⟨h1, h2⟩ := admitsComps_cons.mp h
+    have hl : (encodeFixedBody (.int true w) i).length = w := fixedBody_length _ i h1
+    simp only [encodeComps, decodeComps]
+    rw [List.take_left' hl, List.drop_left' hl, decodeFixedBody_encode _ i h1, decodeComps_encode ws is h2]
+
 theorem decodeField_fixed (o : SortOptions) (t : FTy) (v : FVal) (rest : List UInt8) (hv : t.admits v = true)
-    (h1 : t ≠ .bin) (h2 : ∀ n, t ≠ .fsb n) :
+    (h1 : t ≠ .bin) (h2 : ∀ n, t ≠ .fsb n) (h3 : ∀ ws, t ≠ .prod ws) :
     decodeField o t (encodeField o t v ++ rest) = some (v, rest) := by
   have hdec : ∀ (b : UInt8) (r : List UInt8), decodeField o t (b :: r) =
       if r.length < fixedWidth t then none else
       some (if b = validByte then some (.int (decodeFixedBody t (invIf o.descending (r.take (fixedWidth t))))) else none,
         r.drop (fixedWidth t)) := by
     intro b r
-    cases t <;> first | rfl | exact absurd rfl h1 | exact absurd rfl (h2 _)
+    cases t <;> first | rfl | exact absurd rfl h1 | exact absurd rfl (h2 _) | exact absurd rfl (h3 _)
   match v, hv with
   | none, _ =>
     have he : encodeField o t none = encodeFixedSlot o (fixedWidth t) none := by
-      cases t <;> first | rfl | exact absurd rfl h1 | exact absurd rfl (h2 _)
+      cases t <;> first | rfl | exact absurd rfl h1 | exact absurd rfl (h2 _) | exact absurd rfl (h3 _)
     obtain ⟨b, r, e, hl, hd, hb, _⟩ := decodeFixedSlot o (fixedWidth t) none rest (by simp)
     rw [he, e, hdec, if_neg (by omega), hd]
     have : b ≠ validByte := by intro h; simpa using hb.mp h
     simp [this]
   | some (.int i), hv =>
     have he : encodeField o t (some (.int i)) = encodeFixedSlot o (fixedWidth t) (some (encodeFixedBody t i)) := by
-      cases t <;> first | rfl | exact absurd rfl h1 | exact absurd rfl (h2 _)
+      cases t <;> first | rfl | exact absurd rfl h1 | exact absurd rfl (h2 _) | exact absurd rfl (h3 _)
     obtain ⟨b, r, e, hl, hd, hb, hx⟩ := decodeFixedSlot o (fixedWidth t) (some (encodeFixedBody t i)) rest
       (by intro x hx; cases hx; exact fixedBody_length t i hv)
     rw [he, e, hdec, if_neg (by omega), hd, hx _ rfl, decodeFixedBody_encode t i hv]
     have : b = validByte := hb.mpr rfl
     simp [this]
   | some (.bytes x), hv =>
-    cases t <;> first | (simp [FTy.admits] at hv; done) | exact absurd rfl h1 | exact absurd rfl (h2 _)
+    cases t <;> first | (simp [FTy.admits] at hv; done) | exact absurd rfl h1 | exact absurd rfl (h2 _) | exact absurd rfl (h3 _)
+  | some (.ints x), hv =>
+    cases t <;> first | (simp [FTy.admits] at hv; done) | exact absurd rfl h1 | exact absurd rfl (h2 _) | exact absurd rfl (h3 _)
 
 /-- **decode ∘ encode at field level**, with anything following the field -/
 theorem decodeField_encodeField (o : SortOptions) (t : FTy) (v : FVal) (rest : List UInt8) (hv : t.admits v = true) :
@@ -1291,6 +1372,7 @@ theorem decodeField_encodeField (o : SortOptions) (t : FTy) (v : FVal) (rest : L
       show (match decodeVar o (encodeVar o (some x) ++ rest) with | none => none | some (v, rest) => some (v.map Scalar.bytes, rest)) = _
       rw [decodeVar_encodeVar]; rfl
     | some (.int _), hv => simp [FTy.admits] at hv
+    | some (.ints _), hv => simp [FTy.admits] at hv
   | fsb n =>
     have hdec : ∀ (b : UInt8) (r : List UInt8), decodeField o (.fsb n) (b :: r) =
         if r.length < n then none else
@@ -1311,9 +1393,32 @@ theorem decodeField_encodeField (o : SortOptions) (t : FTy) (v : FVal) (rest : L
       have : b = validByte := hb.mpr rfl
       simp [this]
     | some (.int _), hv => simp [FTy.admits] at hv
-  | int s w => exact decodeField_fixed o _ v rest hv (by simp) (by simp)
-  | float w => exact decodeField_fixed o _ v rest hv (by simp) (by simp)
-  | bool => exact decodeField_fixed o _ v rest hv (by simp) (by simp)
+    | some (.ints _), hv => simp [FTy.admits] at hv
+  | prod ws =>
+    have hdec : ∀ (b : UInt8) (r : List UInt8), decodeField o (.prod ws) (b :: r) =
+        if r.length < ws.sum then none else
+        some (if b = validByte then some (.ints (decodeComps ws (invIf o.descending (r.take ws.sum)))) else none, r.drop ws.sum) := by
+      intro b r; rfl
+    match v, hv with
+    | none, _ =>
+      obtain ⟨b, r, e, hl, hd, hb, _⟩ := decodeFixedSlot o ws.sum none rest (by simp)
+      show decodeField o (.prod ws) (encodeFixedSlot o ws.sum none ++ rest) = _
+      rw [e, hdec, if_neg (by omega), hd]
+      have : b ≠ validByte := by intro h; simpa using hb.mp h
+      simp [this]
+    | some (.ints x), hv =>
+      have hv' : admitsComps ws x = true := hv
+      obtain ⟨b, r, e, hl, hd, hb, hx⟩ := decodeFixedSlot o ws.sum (some (encodeComps ws x)) rest
+        (by intro y hy; cases hy; exact encodeComps_length ws x hv')
+      show decodeField o (.prod ws) (encodeFixedSlot o ws.sum (some (encodeComps ws x)) ++ rest) = _
+      rw [e, hdec, if_neg (by omega), hd, hx _ rfl, decodeComps_encode ws x hv']
+      have : b = validByte := hb.mpr rfl
+      simp [this]
+    | some (.int _), hv => simp [FTy.admits] at hv
+    | some (.bytes _), hv => simp [FTy.admits] at hv
+  | int s w => exact decodeField_fixed o _ v rest hv (by simp) (by simp) (by simp)
+  | float w => exact decodeField_fixed o _ v rest hv (by simp) (by simp) (by simp)
+  | bool => exact decodeField_fixed o _ v rest hv (by simp) (by simp) (by simp)
 
 theorem decodeRow_encodeRow (fs : List (FTy × SortOptions)) : ∀ (r : List FVal), rowAdmits fs r = true →
     decodeRow fs (encodeRow fs r) = some r := by
@@ -1386,6 +1491,7 @@ theorem encodeField_length (o : SortOptions) (t : FTy) (v : FVal) (hv : t.admits
     | none, _ => exact encodeVar_length o none
     | some (.bytes x), _ => exact encodeVar_length o (some x)
     | some (.int _), hv => simp [FTy.admits] at hv
+    | some (.ints _), hv => simp [FTy.admits] at hv
   | fsb n =>
     match v, hv with
     | none, _ => simp [encodeField, encodeFixedSlot, fieldLength, fixedWidth, zeros]; omega
@@ -1393,24 +1499,36 @@ theorem encodeField_length (o : SortOptions) (t : FTy) (v : FVal) (hv : t.admits
       simp only [FTy.admits, decide_eq_true_eq] at hv
       simp [encodeField, encodeFixedSlot, fieldLength, fixedWidth, invIf_length, hv]; omega
     | some (.int _), hv => simp [FTy.admits] at hv
+    | some (.ints _), hv => simp [FTy.admits] at hv
+  | prod ws =>
+    match v, hv with
+    | none, _ => simp [encodeField, encodeFixedSlot, fieldLength, fixedWidth, zeros]; omega
+    | some (.ints x), hv =>
+      have hv' : admitsComps ws x = true := hv
+      simp [encodeField, encodeFixedSlot, fieldLength, fixedWidth, invIf_length, encodeComps_length ws x hv']; omega
+    | some (.int _), hv => simp [FTy.admits] at hv
+    | some (.bytes _), hv => simp [FTy.admits] at hv
   | int s w =>
     match v, hv with
     | none, _ => simp [encodeField, encodeFixedSlot, fieldLength, fixedWidth, zeros]; omega
     | some (.int i), hv =>
       simp [encodeField, encodeFixedSlot, fieldLength, invIf_length, fixedBody_length _ i hv]; omega
     | some (.bytes _), hv => simp [FTy.admits] at hv
+    | some (.ints _), hv => simp [FTy.admits] at hv
   | float w =>
     match v, hv with
     | none, _ => simp [encodeField, encodeFixedSlot, fieldLength, fixedWidth, zeros]; omega
     | some (.int i), hv =>
       simp [encodeField, encodeFixedSlot, fieldLength, invIf_length, fixedBody_length _ i hv]; omega
     | some (.bytes _), hv => simp [FTy.admits] at hv
+    | some (.ints _), hv => simp [FTy.admits] at hv
   | bool =>
     match v, hv with
     | none, _ => simp [encodeField, encodeFixedSlot, fieldLength, fixedWidth, zeros]
     | some (.int i), hv =>
       simp [encodeField, encodeFixedSlot, fieldLength, invIf_length, fixedBody_length _ i hv]; omega
     | some (.bytes _), hv => simp [FTy.admits] at hv
+    | some (.ints _), hv => simp [FTy.admits] at hv
 
 
 theorem swapIf_then (d : Bool) (a b : Ordering) : swapIf d (a.then b) = (swapIf d a).then (swapIf d b) := by
@@ -1567,6 +1685,7 @@ theorem encode_ne_nil : (t : Ty) → (o : SortOptions) → (a : Val) → conform
     | null => simp only [encode]; exact encodeVar_ne_nil o none
     | int _ => simp [conforms] at h
     | bytes _ => simp [conforms] at h
+    | ints _ => simp [conforms] at h
     | tuple _ => simp [conforms] at h
     | union _ _ => simp [conforms] at h
   | .fsl n t, o, a, _ => by cases a <;> simp [encode]
@@ -1586,6 +1705,7 @@ theorem encode_ne_nil : (t : Ty) → (o : SortOptions) → (a : Val) → conform
     | null => simp only [encode]; exact encodeVar_ne_nil o none
     | int _ => simp [conforms] at h
     | bytes _ => simp [conforms] at h
+    | ints _ => simp [conforms] at h
     | tuple _ => simp [conforms] at h
     | union _ _ => simp [conforms] at h
   | .union ids kids, o, a, _ => by
